@@ -267,7 +267,11 @@ impl DrawExecutor {
     }*/
 
     fn set_pixel(&mut self, x: i32, y: i32, line_color: u8) {
-        let offset = (y * self.get_resolution().width + x) as usize;
+        let res = self.get_resolution();
+        if x < 0 || y < 0 || x >= res.width || y >= res.height {
+            return;
+        }
+        let offset = (y * res.width + x) as usize;
         if offset >= self.screen.len() {
             return;
         }
@@ -275,8 +279,11 @@ impl DrawExecutor {
     }
 
     fn get_pixel(&mut self, x: i32, y: i32) -> u8 {
-        let offset = (y * self.get_resolution().width + x) as usize;
-        self.screen[offset]
+        let res = self.get_resolution();
+        if x < 0 || y < 0 || x >= res.width || y >= res.height {
+            return 0;
+        }
+        self.screen.get((y * res.width + x) as usize).copied().unwrap_or(0)
     }
 
     fn fill_pixel(&mut self, x: i32, y: i32) {
@@ -415,8 +422,10 @@ impl DrawExecutor {
             std::mem::swap(&mut x0, &mut x1);
         }
 
-        for y in y0..=y1 {
-            for x in x0..=x1 {
+        // nothing outside the canvas can be painted: do not walk it either
+        let res = self.get_resolution();
+        for y in y0.max(0)..=y1.min(res.height - 1) {
+            for x in x0.max(0)..=x1.min(res.width - 1) {
                 self.fill_pixel(x, y);
             }
         }
